@@ -15,4 +15,45 @@ theorem C13_F1_current :
       .ok ((Ex.senv.tableF Ex.quotesConst).flatMap (flatLines Ex.senv [Ex.constA, Ex.quotesConst] 2 Ex.quotesConst)) :=
   C13_F1_fixed C13_current_all_const
 
+/-! ### C13_F4: a quoting rule that reads no reference at all
+
+After 73adf20 the frame handed to an all-constant quoted rule is kept; a quoting rule whose own term maps are constants and whose
+quoted triples maps are all constant-valued has NO reference, `_get_data` is asked for no column and returns a `(0, 0)` frame, and
+the rule yields nothing although its logical source has rows.  The follow-up repair gives such a rule the one-row placeholder frame
+(`Gen.Star.noRefPlaceholder`). -/
+
+namespace Ex
+
+/-- quotes the all-constant rule `constA` in subject AND object position, constant predicate: no reference anywhere -/
+def quotesConstBoth : FlatRule :=
+  { id := "#TM1".toList, sourceName := "DS".toList, lsv := "t0.csv".toList,
+    subject := .quoted "#TM0".toList [], pred := iri "http://ex.org/q", object := .quoted "#TM0".toList [], graph := dflt }
+
+def lineBoth : Str :=
+  "<< <http://ex.org/s> <http://ex.org/p> <http://ex.org/o> >> <http://ex.org/q> << <http://ex.org/s> <http://ex.org/p> <http://ex.org/o> >> ".toList
+
+end Ex
+
+/-- C13_F4 (the shape before the follow-up repair): no statement at all -/
+theorem C13_F4_no_reference_no_rows : Gen.Star.noRefPlaceholder = false →
+    evalRuleStar Ex.env ([Ex.constA, Ex.quotesConstBoth].map toRule) (toRule Ex.quotesConstBoth) = .ok [] := by
+  decide +kernel
+
+/-- … with the repaired shape: the statement the rules prescribe -/
+theorem C13_F4_fixed : Gen.Star.noRefPlaceholder = true →
+    evalRuleStar Ex.env ([Ex.constA, Ex.quotesConstBoth].map toRule) (toRule Ex.quotesConstBoth) = .ok [Ex.lineBoth] := by
+  decide +kernel
+
+/-- what the generation rules prescribe: the statement once per row of the (non-empty) logical source, i.e. as a set `{lineBoth}` -/
+theorem C13_F4_spec :
+    dedupFirst ((Ex.senv.tableF Ex.quotesConstBoth).flatMap (flatLines Ex.senv [Ex.constA, Ex.quotesConstBoth] 2 Ex.quotesConstBoth))
+      = [Ex.lineBoth] := by
+  decide +kernel
+
+theorem C13_current_no_ref_placeholder : Gen.Star.noRefPlaceholder = true := by decide
+
+theorem C13_F4_current :
+    evalRuleStar Ex.env ([Ex.constA, Ex.quotesConstBoth].map toRule) (toRule Ex.quotesConstBoth) = .ok [Ex.lineBoth] :=
+  C13_F4_fixed C13_current_no_ref_placeholder
+
 end Props.C13
